@@ -2,6 +2,19 @@
 SOURCE_COMMITS = []
 NOT_APPLICABLE = {}
 CHECKS = {
+ "C16": {
+  "text": "DevDirs.tla (develop-mode directory database keyed by recipe+variant with keep-if-prefix-matches and numbering around kept "
+          "entries, release-mode counters, prune on digest change, clean with used-path collection) is model-checked exhaustively "
+          "within small bounds for Injective, Stable, EmptiedBeforeReuse, CleanOnlyGarbage, DryRunDeletesNothing, "
+          "NoUpToDateResultLost with reachability and weakened-mechanism configs; TLC-generated appear/disappear histories are "
+          "replayed into the real DevelopDirOracle with duck-typed steps and a real sqlite file, and end to end with real "
+          "bob dev/build/query-path/clean runs on generated multi-variant projects (markers for reuse without emptying, directory "
+          "listings around clean, executed steps after clean). Bounded model checking plus conformance, not a proof.",
+  "design_ref": "DESIGN.md section 4, C16",
+  "note": "Variant-Ids as printed by `bob show`; marker files and start-up listings written by the generated step scripts; projects without sandbox/shared packages/plugins, full builds, import SCM; package step treated like the build step in the TLA+ model",
+  "technique": "TLA+ mechanism+property spec + TLC exhaustive check; TLC -simulate histories replayed into DevelopDirOracle and into real bob dev/build/clean runs with property-level oracles",
+ },
+
  "C18": {
   "text": "PathQuery.tla (forward declarative semantics written from the manual: all root paths, step-wise evaluation, predicates, "
           "aliases, query-mode error classes) is evaluated by TLC for every (graph, query) of a finite universe - 13 catalogue DAGs "
